@@ -21,7 +21,15 @@ Robustness against harmless rewrites: every piece has a canonical form.  A sourc
 with the canonical form on a grid of assignments is emitted in canonical form (the generated file does not change,
 nothing is re-proved); one that parses and differs is emitted as written; one that cannot be located or parsed is
 emitted in canonical form and listed in `Gen.unparsed` (the tie for that piece then rests on the correspondence run
-alone).  Only if the header itself cannot be read does the translator fail."""
+alone).  Only if the header itself cannot be read does the translator fail.
+
+Round four added LOUD pieces (constructor, endResize statement order, renumberLocal loop, merge() as a program, the
+GlobalLookupIndexSet constructors, the local index classes): outside the grammar they are emitted as unknown/none and the
+theorem about them breaks.  Round five made the reading of these pieces independent of spelling WITHOUT guessing: the
+source is normalised by rules that are sound one by one (boolean locals and entry aliases inlined at their declaration
+point, guard clauses / continue / else-if chains / `?:` turned into decision trees, while = for = index loop, member
+initialiser = assignment in the constructor body, local accumulators tracked symbolically) and loop bodies of merge() are
+compared with the canonical tree by evaluating both for every assignment of their atoms (see `same_tree`)."""
 import itertools
 import os
 import re
@@ -93,6 +101,8 @@ BVARS = {"del", "cmp12", "cmp21", "oldDeleted"}
 def tokenize(s):
     toks, i = [], 0
     s = s.strip()
+    if "++" in s or "--" in s:
+        raise TranslateError("increment/decrement inside an expression: %r" % s[:40])
     while i < len(s):
         m = TOK.match(s, i)
         if not m or m.end() == i:
@@ -340,6 +350,18 @@ def canon_b(text, canonical, g):
     return lean(c) if same_on_grid(e, c, g) else lean(e)
 
 
+def has_num(e):
+    return e[0] == "num" or any(isinstance(x, tuple) and has_num(x) for x in e[1:])
+
+
+def canon_cmp(text):
+    """a comparison of two index pairs: canonical iff it agrees with `before` on CMPGRID and mentions no numeric literal
+    (the grid only has the global indices 0..2: `… || g1 == 7` must not be normalised away)"""
+    e = parse_b(text)
+    c = parse_b(CANON_BEFORE)
+    return lean(c) if (not has_num(e) and same_on_grid(e, c, CMPGRID)) else lean(e)
+
+
 def canon_i(text, canonical, g):
     e = parse_i(text)
     c = parse_i(canonical)
@@ -354,6 +376,13 @@ def check_of(body):
     """-> (inGround, inResize, exc, first) of the first `if(<cond on state_>) DUNE_THROW(Exc, …)` of the body"""
     rx = re.compile(r"if\s*\(")
     pos = 0
+    # `const bool resizing = (state_ == RESIZE);` in front of the check: inlined into the conditions that use the name
+    # (only `const` locals: they cannot change between their declaration and the `if`)
+    locs = {}
+    for d in re.finditer(r"\bconst\s+(?:bool|auto)\s+(\w+)\s*(?:=\s*([^;{}]+)|\{([^;{}]+)\}|\(([^;{}]+)\))\s*;", body):
+        init = next(g for g in d.groups()[1:] if g is not None)
+        if re.search(STATE_ATOM, init) and d.group(1) not in ("GROUND", "RESIZE", "state_"):
+            locs[d.group(1)] = init
     while True:
         m = rx.search(body, pos)
         if not m:
@@ -361,13 +390,15 @@ def check_of(body):
         i = m.end() - 1
         j = match_close(body, i, "(", ")")
         cond = body[i + 1:j]
+        for name, init in locs.items():
+            cond = re.sub(r"\b%s\b" % name, "(" + init + ")", cond)
         t = re.match(r"\s*\{?\s*DUNE_THROW\s*\(\s*(\w+)", body[j + 1:])
         if t and re.search(STATE_ATOM, cond):
             c = re.sub(STATE_ATOM, " g1 ", cond)
             c = re.sub(r"\bGROUND\b", " 0 ", c)
             c = re.sub(r"\bRESIZE\b", " 1 ", c)
             e = parse_b(c)
-            first = body[:m.start()].strip() == ""
+            first = re.sub(r"\bconst\s+(?:bool|auto)\s+\w+\s*[=\{\(][^;{}]+[\}\)]?\s*;", "", body[:m.start()]).strip() == ""
             return (ev(e, {"g1": 0}), ev(e, {"g1": 1}), t.group(1), first)
         pos = j + 1
 
@@ -443,6 +474,9 @@ def search_of(body):
     m2 = re.match(r"^else\s+(low|high)\s*=\s*(.+)$", st[2])
     if not (m0 and m1 and m2):
         raise TranslateError("loop body not of the form probe=…; if(…) x=…; else y=…")
+    test_text, then_t, then_e, else_t, else_e = m1.group(1), m1.group(2), m1.group(3), m2.group(1), m2.group(2)
+    if (then_t, else_t) == ("low", "high"):      # branches written the other way round: negate the test and swap them
+        test_text, then_t, then_e, else_t, else_e = "!(" + test_text + ")", else_t, else_e, then_t, then_e
     g_size = grid(size=range(0, 5))
     g_test = grid(elem=range(0, 3), glob=range(0, 3))
     g_probe = grid(probe=range(-1, 8))
@@ -452,9 +486,9 @@ def search_of(body):
         probeInit=canon_i(d.group(3) if d.group(3) else "-1", CANON_LOOP["probeInit"], g_size),
         cond=canon_b(cond, CANON_LOOP["cond"], LOOPGRID),
         probe=canon_i(m0.group(1), CANON_LOOP["probe"], [env for env in LOOPGRID if env["low"] < env["high"]]),
-        test=canon_b(m1.group(1), CANON_LOOP["test"], g_test),
-        thenT="." + m1.group(2), thenE=canon_i(m1.group(3), CANON_LOOP["thenE"], g_probe),
-        elseT="." + m2.group(1), elseE=canon_i(m2.group(2), CANON_LOOP["elseE"], g_probe),
+        test=canon_b(test_text, CANON_LOOP["test"], g_test),
+        thenT="." + then_t, thenE=canon_i(then_e, CANON_LOOP["thenE"], g_probe),
+        elseT="." + else_t, elseE=canon_i(else_e, CANON_LOOP["elseE"], g_probe),
     )
     # ---- behind the loop
     tail = b[e + 1:]
@@ -617,6 +651,25 @@ def is_state_check(st):
     return bool(re.match(r"^if\s*\(", st)) and "DUNE_THROW" in st and bool(re.search(STATE_ATOM, st))
 
 
+def without_state_check(sts):
+    """the statements without the state check: `if(<condition on state_>) DUNE_THROW(…)` and `const bool` locals that only
+    hold a condition on `state_` (what the check does is the business of `check_of`)"""
+    names, res = set(), []
+    for st in sts:
+        d = re.match(r"^const\s+(?:bool|auto)\s+(\w+)\s*(?:=\s*(.+)|\{(.+)\}|\((.+)\))$", st)
+        if d:
+            init = next(g for g in d.groups()[1:] if g is not None)
+            rest = re.sub(r"\b(?:GROUND|RESIZE)\b|[=!()&|\s]", "", re.sub(STATE_ATOM, "", init))
+            if re.search(STATE_ATOM, init) and rest == "":
+                names.add(d.group(1))
+                continue
+        if is_state_check(st) or (re.match(r"^if\s*\(", st) and "DUNE_THROW" in st
+                                  and any(re.search(r"\b%s\b" % n, st[:st.index("DUNE_THROW")]) for n in names)):
+            continue
+        res.append(st)
+    return res
+
+
 SCALAR_STMT = re.compile(r"^(?:\+\+\s*seqNo_|seqNo_\s*\+\+|seqNo_\s*\+=\s*\d+|seqNo_\s*=\s*seqNo_\s*\+\s*\d+|"
                          r"(?:this\s*->\s*)?state_\s*=\s*\w+|(?:this\s*->\s*)?deletedEntries_\s*=\s*\w+)$")
 
@@ -624,11 +677,26 @@ SCALAR_STMT = re.compile(r"^(?:\+\+\s*seqNo_|seqNo_\s*\+\+|seqNo_\s*\+=\s*\d+|se
 def calls_of_endresize(body):
     """the container statements of endResize() in source order -> Lean list of Call"""
     res = []
-    for st in split_statements(body):
-        if is_state_check(st) or SCALAR_STMT.match(st):
+    FUNCTOR = r"IndexSetSortFunctor\s*<[^>]*>"
+    first = [r"newIndices_\s*\.\s*begin\s*\(\s*\)"]
+    last = [r"newIndices_\s*\.\s*end\s*\(\s*\)"]
+    comp = [FUNCTOR + r"\s*(?:\(\s*\)|\{\s*\})"]
+    for st in without_state_check(split_statements(body)):
+        if SCALAR_STMT.match(st):
             continue
-        if re.match(r"^(?:std\s*::\s*)?(?:stable_)?sort\s*\(\s*newIndices_\s*\.\s*begin\s*\(\s*\)\s*,\s*newIndices_\s*\.\s*end\s*\(\s*\)\s*,"
-                    r"\s*IndexSetSortFunctor\s*<[^>]*>\s*(?:\(\s*\)|\{\s*\})\s*\)$", st):
+        # locals initialised once from one of the three arguments of the sort call (any other use of such a local, e.g.
+        # `++first`, is a statement of its own and comes out as `.unknown`)
+        d = re.match(r"^(?:const\s+)?(?:auto|typename\s+[\w:<>, ]+|[\w:<>, ]+?)\s+(?:const\s+)?(\w+)\s*(?:=\s*|\{\s*|\(\s*)newIndices_\s*\.\s*(begin|end)\s*\(\s*\)\s*[\}\)]?$", st)
+        if d:
+            (first if d.group(2) == "begin" else last).append(d.group(1))
+            continue
+        d = (re.match(r"^(?:const\s+)?%s\s+(?:const\s+)?(\w+)\s*(?:\{\s*\}|=\s*%s\s*(?:\(\s*\)|\{\s*\}))?$" % (FUNCTOR, FUNCTOR), st)
+             or re.match(r"^(?:const\s+)?auto\s+(?:const\s+)?(\w+)\s*=\s*%s\s*(?:\(\s*\)|\{\s*\})$" % FUNCTOR, st))
+        if d:
+            comp.append(d.group(1))
+            continue
+        if re.match(r"^(?:std\s*::\s*)?(?:stable_)?sort\s*\(\s*(?:%s)\s*,\s*(?:%s)\s*,\s*(?:%s)\s*\)$"
+                    % ("|".join(first), "|".join(last), "|".join(comp)), st):
             res.append(".sortNew")
         elif re.match(r"^(?:this\s*->\s*)?merge\s*\(\s*\)$", st):
             res.append(".merge")
@@ -737,9 +805,7 @@ def renumber_of(body):
     sts = split_statements(body)
     end_names, size_names, counters, iters, loop = set(), set(), {}, {}, None
     SIZE = r"(?:localIndices_\s*\.\s*size\s*\(\s*\)|(?:this\s*->\s*)?size\s*\(\s*\))"
-    for st in sts:
-        if is_state_check(st):
-            continue
+    for st in without_state_check(sts):
         if loop is None:
             m = re.match(r"^(?:const\s+)?[\w:<>]+\s+(\w+)\s*=\s*(?:this\s*->\s*)?end\s*\(\s*\)$", st)
             if m:
@@ -815,6 +881,12 @@ def renumber_of(body):
             raise TranslateError("assigned expression not understood")
         ctr, post = m.group(1), post + 1
         val = val.replace(m.group(0), " " + ctr + " ", 1)
+    m = re.search(r"\+\+\s*(\w+)", val)          # pair->local() = ++index
+    if m:
+        if fixed or (ctr is not None and ctr != m.group(1)):
+            raise TranslateError("assigned expression not understood")
+        ctr, pre = m.group(1), pre + 1
+        val = val.replace(m.group(0), " " + ctr + " ", 1)
     if ctr is None:
         raise TranslateError("no counter")
     if ctr not in counters:
@@ -840,15 +912,34 @@ def ctor_parts(src, nparams):
 
 
 def table_ctor_of(src, nparams):
+    """-> TableCtor.  `size` in `cells`/`sizeFinal` stands for the accumulator behind the max loop (or for the initial
+    `size_` when there is no such loop).  The accumulator is `size_` itself or a local (`std::size_t maxLocal = 0; …
+    maxLocal = std::max(maxLocal, …); size_ = maxLocal + 1`); `sym` holds what every variable is worth in terms of `size`
+    (None = not expressible, e.g. `size_` while a local accumulates: it must be assigned before it is read)."""
     names, ini, body = ctor_parts(src, nparams)
     if "size_" not in ini:
         raise TranslateError("size_ not initialised")
     szname = names[1] if nparams == 2 else None
-    t = ini["size_"]
-    if szname:
-        t = re.sub(r"\b%s\b" % szname, " tsize ", t)
-    size_init = canon_i(t, "tsize" if szname else "0", grid(tsize=range(0, 5)))
-    cur = "size"       # size_ in terms of its value behind the max loop
+
+    def over_tsize(t):
+        return re.sub(r"\b%s\b" % szname, " tsize ", t) if szname else t
+
+    size_init_text = over_tsize(ini["size_"])
+    sym = {"size_": "size"}
+    local_init = {}
+
+    def subst(t):
+        def rep(mm):
+            n = mm.group(0)
+            if n in sym:
+                if sym[n] is None:
+                    raise TranslateError("%s is read before it holds the maximum" % n)
+                return " (" + sym[n] + ") "
+            if n in local_init:
+                raise TranslateError("%s is read before it holds the maximum" % n)
+            return n
+        return re.sub(r"\b[A-Za-z_]\w*\b", rep, t)
+
     cells = None
     if "indices_" in ini:
         a = split_params(ini["indices_"])
@@ -867,6 +958,12 @@ def table_ctor_of(src, nparams):
         if m:
             end_names.add(m.group(1))
             continue
+        m = re.match(r"^(?:std\s*::\s*)?\w+\s+(\w+)\s*(?:=\s*([^=].*)|\{(.*)\}|\((.+)\))$", st)   # (not const: it accumulates)
+        if m and nparams == 1 and fold is None and cells is None and slot is None and m.group(1) not in sym:
+            t = next((g for g in m.groups()[1:] if g is not None), "0").strip() or "0"
+            parse_i(t)                       # a literal expression: nothing else is in scope that the grammar knows
+            local_init[m.group(1)] = t
+            continue
         if st.startswith("for"):
             head, inner = for_parts(st)
             x, elem, others = loop_var(head, BEGIN, END, end_names)
@@ -877,25 +974,32 @@ def table_ctor_of(src, nparams):
                 raise TranslateError("loop body has %d statements" % len(inner))
             q = re.sub(r"%s\s*local\s*\(\s*\)(?:\s*\.\s*local\s*\(\s*\))?" % elem, " locNo ", inner[0])
             q = re.sub(r"static_cast\s*<[^>]*>", "", q)
-            m1 = re.match(r"^size_\s*=\s*(?:std\s*::\s*)?max\s*(?:<[^>]*>)?\s*\((.+)\)$", q)
+            m1 = re.match(r"^(\w+)\s*=\s*(?:std\s*::\s*)?max\s*(?:<[^>]*>)?\s*\((.+)\)$", q)
             m2 = re.match(r"^indices_\s*\[(.+)\]\s*=\s*(.+)$", q)
-            m3 = re.match(r"^if\s*\((.+?)(>|<)(.+)\)\s*size_\s*=\s*(.+)$", q)   # if(LOC > size_) size_ = LOC
-            if m3 and not m1:
-                a, op, b, v = m3.group(1).strip(), m3.group(2), m3.group(3).strip(), m3.group(4).strip()
+            m3 = re.match(r"^if\s*\((.+?)(>|<)(.+)\)\s*(\w+)\s*=\s*(.+)$", q)   # if(LOC > acc) acc = LOC
+            acc, args = None, None
+            if m1:
+                acc, args = m1.group(1), [z.strip() for z in split_params(m1.group(2))]
+            elif m3:
+                a, op, b, v, val = m3.group(1).strip(), m3.group(2), m3.group(3).strip(), m3.group(4), m3.group(5).strip()
                 big, small = (a, b) if op == ">" else (b, a)
-                if small == "size_" and big == v:
-                    m1 = re.match(r"^size_\s*=\s*max\s*\((.+)\)$", "size_ = max(size_, %s)" % v)
-            if m1 and fold is None and cells is None and slot is None and cur == "size":
-                a = split_params(m1.group(1))
-                if len(a) != 2:
-                    raise TranslateError("max with %d arguments" % len(a))
-                a = [z.strip() for z in a]
-                if a[0] == "size_":
-                    other = a[1]
-                elif a[1] == "size_":
-                    other = a[0]
+                if small == v and big == val:
+                    acc, args = v, [v, val]
+            if acc is not None and fold is None and cells is None and slot is None and sym["size_"] == "size":
+                if len(args) != 2:
+                    raise TranslateError("max with %d arguments" % len(args))
+                if args[0] == acc:
+                    other = args[1]
+                elif args[1] == acc:
+                    other = args[0]
                 else:
-                    raise TranslateError("max does not accumulate into size_")
+                    raise TranslateError("max does not accumulate into %s" % acc)
+                if acc in local_init:        # a local accumulates: size_ keeps its initial value until it is assigned
+                    size_init_text = local_init.pop(acc)
+                    sym[acc] = "size"
+                    sym["size_"] = None
+                elif acc != "size_":
+                    raise TranslateError("max does not accumulate into size_ or a local")
                 fold = canon_i(other, "locNo", grid(locNo=range(0, 5)))
             elif m2 and slot is None and cells is not None:
                 tgt = m2.group(2).strip()
@@ -918,28 +1022,36 @@ def table_ctor_of(src, nparams):
                 raise TranslateError("resize not understood")
             arg = a[0]
             if re.match(r"^\+\+\s*size_$", arg):
-                cur = "(%s+1)" % cur
-                cells = cur
+                sym["size_"] = "(%s+1)" % subst("size_")
+                cells = sym["size_"]
             elif re.match(r"^size_\s*\+\+$", arg):
-                cells = cur
-                cur = "(%s+1)" % cur
+                cells = subst("size_")
+                sym["size_"] = "(%s+1)" % cells
             else:
-                cells = re.sub(r"\bsize_\b", " " + cur + " ", arg)
+                cells = subst(arg)
             continue
-        m = re.match(r"^(?:\+\+\s*size_|size_\s*\+\+)$", st)
-        m2 = re.match(r"^size_\s*\+=\s*(\d+)$", st) or re.match(r"^size_\s*=\s*size_\s*\+\s*(\d+)$", st)
-        if m or m2:
+        ik = inc_of(st)
+        if ik and ik[0] in sym:
             if fold is None and nparams == 1:
                 raise TranslateError("size_ changed before the maximum is known")
-            cur = "(%s+%d)" % (cur, 1 if m else int(m2.group(1)))
+            sym[ik[0]] = "(%s+%d)" % (subst(ik[0]), ik[1])
+            continue
+        m = re.match(r"^(?:this\s*->\s*)?size_\s*=\s*([^=].*)$", st)
+        if m and slot is None:
+            if fold is None and nparams == 1:
+                raise TranslateError("size_ changed before the maximum is known")
+            sym["size_"] = "(%s)" % subst(re.sub(r"static_cast\s*<[^>]*>", "", m.group(1)))
             continue
         raise TranslateError("statement not understood: %r" % st[:50])
     if cells is None or slot is None:
         raise TranslateError("table is not allocated/filled")
+    if sym["size_"] is None:
+        raise TranslateError("size_ is never assigned the maximum")
+    size_init = canon_i(size_init_text, "tsize" if szname else "0", grid(tsize=range(0, 5)))
     g = grid(size=range(0, 6))
     want_cells = "size" if nparams == 2 else "size+1"
     return "some { sizeInit := %s, foldMax := %s, cells := %s, sizeFinal := %s, slot := %s }" % (
-        size_init, ("some " + fold) if fold else "none", canon_i(cells, want_cells, g), canon_i(cur, want_cells, g), slot)
+        size_init, ("some " + fold) if fold else "none", canon_i(cells, want_cells, g), canon_i(sym["size_"], want_cells, g), slot)
 
 
 # ---- round four: the loops of merge() as a little program ------------------------------------------------
@@ -1111,8 +1223,12 @@ def has_unknown(t):
     return t[0] == "unknown" or (t[0] == "ite" and (has_unknown(t[2]) or has_unknown(t[3])))
 
 
+def tree_has_num(t):
+    return t[0] == "ite" and (has_num(t[1]) or tree_has_num(t[2]) or tree_has_num(t[3]))
+
+
 def same_tree(t, c, g):
-    if has_unknown(t):
+    if has_unknown(t) or tree_has_num(t):      # (the grid has the global indices 0..2 only: no literals)
         return False
     try:
         return all(run_tree(t, env) == run_tree(c, env) for env in g)
@@ -1122,7 +1238,7 @@ def same_tree(t, c, g):
 
 def lean_cond(e):
     vs = ast_vars(e)
-    if vs and vs <= {"g1", "g2", "cmp12", "cmp21"} and same_on_grid(e, parse_b(CANON_BEFORE), CMPGRID):
+    if vs and vs <= {"g1", "g2", "cmp12", "cmp21"} and not has_num(e) and same_on_grid(e, parse_b(CANON_BEFORE), CMPGRID):
         return lean(parse_b(CANON_BEFORE))
     if vs == {"oldDeleted"}:
         g = grid(oldDeleted=(False, True))
@@ -1157,23 +1273,62 @@ def merge_names(block_statements):
     return names, rest
 
 
+def merge_parts(mb):
+    """the top-level shape of merge() -> (c1, B1, c2, B2) with the meaning `if(c1){B1} else if(c2){B2}`.  Also read:
+    the guard-clause spellings `if(c1){B1 return;} if(c2){B2}` and `if(c1){B1 return;} if(c) return; B2` (c2 = !c)."""
+    sts = split_statements(mb)
+
+    def if_parts(st):
+        m = re.match(r"^(?:else\s+)?if\s*\(", st)
+        if not m:
+            raise TranslateError("merge(): if expected at %r" % st[:30])
+        i = m.end() - 1
+        j = match_close(st, i, "(", ")")
+        rest = st[j + 1:].strip()
+        if rest.startswith("{"):
+            e = match_close(rest, 0, "{", "}")
+            if rest[e + 1:].strip():
+                raise TranslateError("merge(): text behind a block")
+            rest = rest[1:e]
+        return st[i + 1:j], rest.strip()
+
+    def join(xs):
+        return " ".join(x if x.endswith("}") else x + ";" for x in xs)
+
+    if len(sts) < 2 or not sts[0].startswith("if"):
+        raise TranslateError("merge() does not start with if")
+    c1, b1 = if_parts(sts[0])
+    b1s = split_statements(b1)
+    returns = bool(b1s) and b1s[-1] == "return"
+    if returns:
+        b1s = b1s[:-1]
+    if any(re.search(r"\breturn\b", x) for x in b1s):
+        raise TranslateError("merge(): return inside the first branch")
+    b1 = join(b1s)
+    if re.match(r"^else\s+if\b", sts[1]):
+        if len(sts) != 2:
+            raise TranslateError("statements behind the else-if block")
+        c2, b2 = if_parts(sts[1])
+        return c1, b1, c2, b2
+    if sts[1].startswith("else"):
+        raise TranslateError("merge(): else-if not found")
+    if not returns:
+        raise TranslateError("merge(): the first branch falls through into the second")
+    c, b = if_parts(sts[1])
+    if b == "return" and len(sts) > 2:
+        rest = sts[2:]
+        if len(rest) == 1 and rest[0].startswith("{") and match_close(rest[0], 0, "{", "}") == len(rest[0]) - 1:
+            return c1, b1, "!(" + c + ")", rest[0][1:-1]      # the remainder wrapped in a block of its own
+        return c1, b1, "!(" + c + ")", join(rest)
+    if len(sts) == 2 and b != "return":
+        return c1, b1, c, b
+    raise TranslateError("merge(): else-if not found")
+
+
 def merge_prog_of(mb):
     """the `else if` block of merge() -> Lean list of MLoop"""
-    m = re.match(r"^\s*if\s*\(", mb)
-    if not m:
-        raise TranslateError("merge() does not start with if")
-    j = match_close(mb, m.end() - 1, "(", ")")
-    k = mb.index("{", j)
-    e = match_close(mb, k, "{", "}")
-    m2 = re.match(r"^\s*else\s+if\s*\(", mb[e + 1:])
-    if not m2:
-        raise TranslateError("else-if not found")
-    j2 = match_close(mb, e + 1 + m2.end() - 1, "(", ")")
-    k2 = mb.index("{", j2)
-    e2 = match_close(mb, k2, "{", "}")
-    if mb[e2 + 1:].strip():
-        raise TranslateError("statements behind the else-if block")
-    names, sts = merge_names(split_statements(mb[k2 + 1:e2]))
+    _, _, _, b2 = merge_parts(mb)
+    names, sts = merge_names(split_statements(b2))
     try:
         OLD, ADDED = names[("localIndices_", "begin")], names[("newIndices_", "begin")]
         TEMP = names["temp"]
@@ -1311,17 +1466,12 @@ def merge_prog_of(mb):
 
 def merge_copy_branch_of(mb):
     """the statements of the first branch of merge() (`localIndices_.size()==0`) -> Lean list of CopyAct"""
-    m = re.match(r"^\s*if\s*\(", mb)
-    if not m:
-        raise TranslateError("merge() does not start with if")
-    j = match_close(mb, m.end() - 1, "(", ")")
-    k = mb.index("{", j)
-    e = match_close(mb, k, "{", "}")
+    _, b1, _, _ = merge_parts(mb)
     res = []
-    for st in split_statements(mb[k + 1:e]):
+    for st in split_statements(b1):
         if re.match(r"^localIndices_\s*=\s*newIndices_$", st):
             res.append(".assignNewToLocal")
-        elif re.match(r"^newIndices_\s*\.\s*clear\s*\(\s*\)$", st):
+        elif re.match(r"^newIndices_\s*(?:\.\s*clear\s*\(\s*\)|=\s*ArrayList\s*<[^>]*>\s*(?:\(\s*\)|\{\s*\}))$", st):
             res.append(".clearNew")
         elif re.match(r"^(?:localIndices_\s*\.\s*swap\s*\(\s*newIndices_\s*\)|newIndices_\s*\.\s*swap\s*\(\s*localIndices_\s*\)|(?:std\s*::\s*)?swap\s*\(\s*(?:localIndices_\s*,\s*newIndices_|newIndices_\s*,\s*localIndices_)\s*\))$", st):
             res.append(".assignNewToLocal, .clearNew")
@@ -1352,16 +1502,25 @@ def init_value(expr, params):
 def ctors_of(src, head_rx):
     """all constructors `HEAD(params) : inits {}` -> {nparams: Lean LIdxCtor}"""
     res = {}
-    for m in re.finditer(head_rx + r"\s*\(([^()]*)\)(?=\s*:[^:])", src):
+    for m in re.finditer(head_rx + r"\s*\(([^()]*)\)(?=\s*(?::[^:]|\{))", src):
         params = param_names(m.group(1)) if m.group(1).strip() else []
-        ini, body, _ = ctor_inits_at(src, m.end())
-        if body.strip():
-            raise TranslateError("constructor body is not empty")
+        if re.match(r"\s*\{", src[m.end():]):      # no member initialisers at all
+            b = src.index("{", m.end())
+            ini, body = {}, src[b + 1:match_close(src, b, "{", "}")]
+        else:
+            ini, body, _ = ctor_inits_at(src, m.end())
         vals = {"localIndex_": ".zero", "attribute_": ".zero", "public_": ".falseV", "state_": None}
         for name, text in ini.items():
             if name not in MEMBERS:
                 raise TranslateError("initialiser not understood: %r" % name)
             vals[name] = init_value(text, params)
+        # assignments in the body overwrite the initialised value (values are parameters or literals only, so neither the
+        # order of the initialisers nor of the assignments to different members matters)
+        for st in split_statements(body):
+            a = re.match(r"^(?:this\s*->\s*)?(\w+)\s*=\s*(.+)$", st)
+            if not a or a.group(1) not in MEMBERS:
+                raise TranslateError("constructor statement not understood: %r" % st[:40])
+            vals[a.group(1)] = init_value(a.group(2), params)
         if vals["state_"] is None:
             raise TranslateError("state_ is not initialised")
         res[len(params)] = "some { loc := %s, attr := %s, pub := %s, state := %s }" % (
@@ -1378,7 +1537,7 @@ def writes_of(src, sig_rx):
     for st in split_statements(bs[0][2]):
         if re.match(r"^return\s+\*\s*this$", st):
             continue
-        m = re.match(r"^(\w+)\s*=\s*(.+)$", st)
+        m = re.match(r"^(?:this\s*->\s*)?(\w+)\s*=\s*(.+)$", st)
         if not m or m.group(1) not in MEMBERS:
             raise TranslateError("statement not understood: %r" % st[:40])
         res.append("(%s, %s)" % (MEMBERS[m.group(1)], init_value(m.group(2), params)))
@@ -1429,8 +1588,11 @@ def set_ctor_of(src):
     if not m:
         raise TranslateError("default constructor not found")
     vals, body, _ = ctor_inits_at(src, m.end())
-    if body.strip():
-        raise TranslateError("constructor body is not empty")
+    for st in split_statements(body):        # assignments in the body overwrite the initialised value (literals only)
+        a = re.match(r"^(?:this\s*->\s*)?(state_|seqNo_|deletedEntries_)\s*=\s*(\w+)$", st)
+        if not a:
+            raise TranslateError("constructor statement not understood: %r" % st[:40])
+        vals[a.group(1)] = a.group(2)
     extra = set(vals) - {"state_", "seqNo_", "deletedEntries_", "localIndices_", "newIndices_"}
     if extra or vals.get("localIndices_", "") or vals.get("newIndices_", ""):
         raise TranslateError("unexpected initialisers")
@@ -1507,14 +1669,14 @@ def translate(repo):
         if not bs:
             raise TranslateError("IndexSetSortFunctor::operator() not found")
         n = param_names(bs[0][0])
-        return canon_b(norm_cmp(return_expr(bs[0][2]), n[0], n[1]), CANON_BEFORE, CMPGRID)
+        return canon_cmp(norm_cmp(return_expr(bs[0][2]), n[0], n[1]))
 
     def merge_cmp():
         mb = method("merge", 0)
         m = re.search(r"if\s*\(\s*(old\s*->\s*global\s*\(\s*\).*?)\)\s*\{\s*tempPairs", mb)
         if not m:
             raise TranslateError("comparison of old and added not found in merge()")
-        return canon_b(norm_cmp(m.group(1), "old", "added"), CANON_BEFORE, CMPGRID)
+        return canon_cmp(norm_cmp(m.group(1), "old", "added"))
 
     def plocal_cmp():
         sb = struct_body(psrc, r"struct LocalIndexComparator\s*<\s*ParallelLocalIndex\s*<[^>]*>\s*>")
@@ -1559,21 +1721,7 @@ def translate(repo):
         return t
 
     def merge_conds():
-        mb = method("merge", 0)
-        m = re.match(r"^\s*if\s*\(", mb)
-        if not m:
-            raise TranslateError("merge() does not start with if")
-        i = m.end() - 1
-        j = match_close(mb, i, "(", ")")
-        c1 = mb[i + 1:j]
-        k = mb.index("{", j)
-        e = match_close(mb, k, "{", "}")
-        m2 = re.match(r"^\s*else\s+if\s*\(", mb[e + 1:])
-        if not m2:
-            raise TranslateError("merge(): else-if not found")
-        i2 = e + 1 + m2.end() - 1
-        j2 = match_close(mb, i2, "(", ")")
-        c2 = mb[i2 + 1:j2]
+        c1, _, c2, _ = merge_parts(method("merge", 0))
         return c1, c2
 
     def deleted_tests():
